@@ -159,6 +159,10 @@ def parse_sc(toks):
             elif f[0] == "w" and len(f) == 5:
                 o = Op("w", id=int(f[1]), fd=int(f[2]), buflen=int(f[3]), min=int(f[4]))
                 info["req"][o.id] = o
+            elif f[0] in ("R", "W") and len(f) == 5:
+                # a request over gigabytes (an unbacked buffer on the C side: counts only, no contents)
+                o = Op(f[0].lower(), id=int(f[1]), fd=int(f[2]), buflen=int(f[3]), min=int(f[4]), huge=True)
+                info["req"][o.id] = o
             elif f[0] == "a" and len(f) == 3:
                 o = Op("a", id=int(f[1]), fd=int(f[2]))
                 info["req"][o.id] = o
@@ -168,7 +172,7 @@ def parse_sc(toks):
                 fd, wr = int(f[1]), f[2] == "w"
                 evs = []
                 for e in f[3].split(","):
-                    if e[0] == "d":
+                    if e[0] in "dD":
                         n = int(e[1:])
                         p = peer.get(fd, 0)
                         peer[fd] = p + n
@@ -196,6 +200,8 @@ def parse_sc(toks):
                     info["nr_fd"] = o.fd
             elif f[0] == "nrw" and len(f) == 2:
                 o = Op("nrw", k=int(f[1]))
+            elif f[0] == "nrh" and len(f) == 2:
+                o = Op("nrh", k=int(f[1]))
             elif f[0] == "nrc" and len(f) == 2:
                 o = Op("nrc", j=int(f[1]))
             elif t == "nrx":
@@ -207,6 +213,9 @@ def parse_sc(toks):
                 if info["nw_fd"] is None:
                     info["nw_fd"] = o.fd
                 app["nw"] = True
+            elif f[0] == "nwo" and len(f) == 2 and top:
+                o = Op("nwo", p=int(f[1]))
+                app["pos"] = o.p
             elif f[0] == "nww" and len(f) == 2 and top:
                 o = Op("nww", n=int(f[1]), pos=app["pos"])
                 app["pos"] += o.n
@@ -297,6 +306,7 @@ RX_ACC = re.compile(r"^A(\d+):(-?\d+)=(\S+)$")
 RX_CB = re.compile(r"^cb(\d+)=(-?\d+)(?::(\S+))?$")
 RX_START = re.compile(r"^([rwa])(\d+)=(ok|null)$")
 RX_NRW = re.compile(r"^nrw(\d+)=(-?\d+)$")
+RX_NRH = re.compile(r"^nrh(\d+)=(-?\d+|skip)$")
 RX_NRCB = re.compile(r"^nrcb=(-?\d+):(\d+):(\S+)$")
 RX_NRC = re.compile(r"^nrc(\d+)$")
 RX_NW = re.compile(r"^(nww|nwr|nwc)(\d+)=(\S+)$")
@@ -330,6 +340,7 @@ def check_sc(case, toks, allocfail=False):
     maybe_free = set()   # slots whose holder may have lost its registration (a refused re-registration inside the loop)
     expect = None   # ("cb", id, value) | ("fail",) | ("nrcb", status): what the next token must be
     wire = {}       # fd -> bytearray of the bytes the checker believes were handed to send
+    ghost = {}      # fd -> number of bytes handed to send from buffers of gigabytes (counted, not looked at)
     nsock = 0
     known = []
     # buffered reader, as the application is entitled to see it
@@ -433,7 +444,10 @@ def check_sc(case, toks, allocfail=False):
                     wire.setdefault(fd, bytearray())
                     if a[0] == "N":
                         n = a[1]
-                        wire[fd] += pat_bytes(100 + rid, off, n)
+                        if getattr(o, "huge", False):
+                            ghost[fd] = ghost.get(fd, 0) + n
+                        else:
+                            wire[fd] += pat_bytes(100 + rid, off, n)
                         r["pos"] += n
                         if r["pos"] >= o.min:
                             expect = ("cb", rid, r["pos"])
@@ -445,7 +459,8 @@ def check_sc(case, toks, allocfail=False):
                         if n == 0:
                             expect = ("cb", rid, 0)
                         else:
-                            r["got"] += pat_bytes(fd, a[2], n)
+                            if not getattr(o, "huge", False):
+                                r["got"] += pat_bytes(fd, a[2], n)
                             r["pos"] += n
                             if r["pos"] >= o.min:
                                 expect = ("cb", rid, r["pos"])
@@ -541,9 +556,9 @@ def check_sc(case, toks, allocfail=False):
             if slot.get((o.fd, o.kind == "w")) == rid:
                 del slot[(o.fd, o.kind == "w")]
             if o.kind == "r":
-                if v > 0 and not (o.min <= v <= o.buflen and v == len(r["got"])):
-                    V("%s: n must satisfy min=%d <= n <= buflen=%d and equal the %d bytes received" % (t, o.min, o.buflen, len(r["got"])))
-                want = show(bytes(r["got"]) + b"\xee" * (o.buflen - len(r["got"])))
+                if v > 0 and not (o.min <= v <= o.buflen and v == r["pos"]):
+                    V("%s: n must satisfy min=%d <= n <= buflen=%d and equal the %d bytes received" % (t, o.min, o.buflen, r["pos"]))
+                want = "untouched" if getattr(o, "huge", False) else show(bytes(r["got"]) + b"\xee" * (o.buflen - len(r["got"])))
                 if sh != want:
                     V("%s: buffer should hold exactly the next %d bytes of the peer stream and nothing else (%s)" % (t, len(r["got"]), want))
             elif o.kind == "w":
@@ -576,6 +591,8 @@ def check_sc(case, toks, allocfail=False):
             fd, rest = t[4:].split("=", 1)
             fd = int(fd)
             want = lshow(bytes(wire.get(fd, b"")))
+            if ghost.get(fd):
+                want = "%d:untouched" % (len(wire.get(fd, b"")) + ghost[fd])
             if rest != want:
                 V("%s: bytes received by the wrapped send should be %s" % (t, want))
             wire["seen%d" % fd] = True
@@ -601,6 +618,21 @@ def check_sc(case, toks, allocfail=False):
                 nr["consumed_in_wait"] = False
             elif not allocfail:
                 V("%s: wait failed without an allocation failure" % t)
+            continue
+        m = RX_NRH.match(t)
+        if m:
+            # a wait for a length that no buffer can have (>= 2^47): the allocation is refused by the
+            # allocator itself; netbuf.h's contract for that is -1, no callback, reader unchanged
+            k, rc = int(m.group(1)), m.group(2)
+            if rc == "skip":
+                if nr["wait"] is None and nr["fd"] is not None and "nri=ok" in toks[:ti]:
+                    V("%s: the driver skipped a wait although none is pending" % t)
+            elif rc != "-1":
+                V("%s: a wait for %d bytes (= SIZE_MAX - %d) was accepted with %d byte(s) buffered after %d consumed: "
+                  "no buffer of that size can be allocated, the documented answer is -1 (an accepted wait goes on to "
+                  "report 'success', i.e. that many bytes buffered)" % (t, k, 2 ** 64 - 1 - k, len(nr["visible"]) - nr["consumed"], nr["consumed"]))
+            elif nr["wait"] is not None:
+                V("%s: wait attempted while another is pending" % t)
             continue
         m = RX_NRCB.match(t)
         if m:
@@ -1056,6 +1088,57 @@ def gen_rw(ctx, n):
     return cases
 
 
+GIB = 1 << 30
+LINUX_MAX_RW = 0x7ffff000       # what one send()/recv() moves at most on Linux
+
+
+def gen_rw_gigabytes(ctx, n):
+    """single requests that complete with 2^31 bytes or more (network.h allows buflen up to SSIZE_MAX;
+    a multi-gigabyte mmap()ed file written with one request): the callback's count is the true count."""
+    r = ctx.rng
+    cases = []
+    lens = [2 ** 31 - 1, 2 ** 31, 2 ** 31 + 1, 3 * GIB, 2 ** 32 - 1, 2 ** 32, 2 ** 32 + 1, 2 ** 32 + 100, 5 * GIB,
+            2 ** 33 + 7, 2 ** 32 + 2 ** 31, 2 ** 36]
+    for i in range(n):
+        wr = (i % 3 != 2)
+        b = r.choice(lens) if r.random() < 0.85 else r.randrange(2 ** 31, 2 ** 34)
+        m = r.choice([b, b, b, 1, b // 2, 2 ** 31, 2 ** 32, 2 ** 32 + 1, b - 1, r.randrange(1, b + 1)])
+        m = max(1, min(m, b))
+        fd = r.choice([5, 6, 7])
+        style = r.choice(["linux", "linux", "one", "pieces", "pieces"])
+        evs, left = [], m if r.random() < 0.7 else b
+        while left > 0 and len(evs) < 60:
+            evs += _retry_burst(r)
+            if style == "linux":
+                k = LINUX_MAX_RW
+            elif style == "one":
+                k = r.choice([b, b + 5, 2 ** 40])
+            else:
+                k = r.choice([1, 4096, 2 ** 31 - 1, 2 ** 31, 2 ** 32, GIB, r.randrange(1, 2 ** 32), left])
+            k = max(1, k)
+            evs.append(("n%d" if wr else "D%d") % (k if wr else min(k, left + r.choice([0, 0, 9]))))
+            left -= k
+        term = r.choice(["none"] * 5 + ["err", "eof"])
+        if term == "err":
+            evs.insert(r.randrange(0, len(evs) + 1), "e" + r.choice(HARD_RW))
+        elif term == "eof" and not wr:
+            evs.insert(r.randrange(0, len(evs) + 1), "z")
+        toks = ["%s:1:%d:%d:%d" % ("W" if wr else "R", fd, b, m)]
+        if r.random() < 0.3:
+            toks += ["{", "%s:2:%d:%d:%d" % ("w" if wr else "r", fd, 8, r.choice([1, 8])), "}"]
+        groups = _chunks(r, evs)
+        cancel_at = r.choice([None] * 6 + [0, 1])
+        for gi, g in enumerate(groups):
+            if cancel_at == gi:
+                toks.append("x:1")
+            if g:
+                toks.append("k:%d:%s:%s" % (fd, "w" if wr else "r", ",".join(g)))
+            toks.append("run")
+        ctx.count("rw.gigabytes." + ("write" if wr else "read"))
+        cases.append("sc " + " ".join(toks))
+    return cases
+
+
 def gen_accept(ctx, n):
     r = ctx.rng
     cases = []
@@ -1193,7 +1276,11 @@ def gen_nbr(ctx, n, big_every=8):
             if r.random() < 0.3:
                 toks.append("nrc:%d" % r.choice([0, 1, 50, 4096, 100000]))
         ctx.count("nbr.big" if big else "nbr.small")
-        cases.append("sc " + " ".join(toks))
+        c = "sc " + " ".join(toks)
+        if i % 4 == 1:
+            c = with_huge_waits(r, c)
+            ctx.count("nbr.unsatisfiable_wait", c.count(" nrh:"))
+        cases.append(c)
     return cases
 
 
@@ -1280,6 +1367,64 @@ def to_plain_mode(case):
     return case if t[0] != "scx" else "sc" + (" " + t[1] if len(t) > 1 else "")
 
 
+HUGE_MIN = 1 << 47      # lengths from here on cannot be allocated on this platform (wrap_net.c FK_UNSATISFIABLE)
+
+
+def strip_huge(case):
+    """the scenario without its nrh:<len> operations.  The model's lengths are unary numbers, so it is
+    not asked about a wait for 2^64-1 bytes; what it does define (NetbufRead.nbr_wait with the
+    allocation refused: `Ok None => Ok (R, None)`, proved as wait_failure_lemma) is that such a wait
+    returns -1 and leaves the reader as it was.  So: the implementation's log of the scenario, minus
+    its nrh tokens (each of which must read -1), has to be the model's log of the scenario without
+    those operations."""
+    if " nrh:" not in case:
+        return case
+    return " ".join(t for t in case.split() if not t.startswith("nrh:"))
+
+
+def no_model(case):
+    """requests over gigabytes (R: / W:): the model defines them (its counts are unbounded) but its runner
+    would have to build the byte lists; these cases are judged by the independent evaluator alone,
+    which checks the same clauses (exactly one callback, its value = the bytes moved, min <= n <=
+    buflen, every recv / send asks for exactly the rest at the current offset)"""
+    return " R:" in case or " W:" in case
+
+
+def strip_huge_log(core):
+    if " nrh" not in core:
+        return core
+    return " ".join(t for t in core.split() if not RX_NRH.match(t))
+
+
+def _huge_len(r, consumed):
+    """a wait length that cannot be buffered: SIZE_MAX - j around what has been consumed, and other
+    landmarks of size_t"""
+    top = 2 ** 64 - 1
+    c = consumed
+    return r.choice([top, top, top - 1, top - 2, top - 3, top - 7, top - r.randrange(0, 64),
+                     top - max(0, c - 1), top - c, top - (c + 1), top - r.randrange(0, max(1, c)),
+                     top - 4095, top - 4096, top - 100000, top - (2 ** 32), 2 ** 64 - 2 ** 32, 2 ** 63, 2 ** 63 - 1,
+                     2 ** 63 + 1, 2 ** 63 + c, 2 ** 62, 2 ** 48, 2 ** 47, 2 ** 47 + r.randrange(0, 5000)])
+
+
+def with_huge_waits(r, case, p=0.5):
+    """insert nrh:<len> after consume operations (top level and inside callback blocks: places where
+    the read pointer has usually moved) and before other reader operations"""
+    out = []
+    consumed = 0
+    for t in case.split():
+        if t.startswith("nrw:") and r.random() < p * 0.3:
+            out.append("nrh:%d" % _huge_len(r, consumed))
+        out.append(t)
+        if t.startswith("nrc:"):
+            consumed = int(t[4:])
+            if r.random() < p:
+                out.append("nrh:%d" % _huge_len(r, consumed))
+                if r.random() < 0.2:
+                    out.append("nrh:%d" % _huge_len(r, consumed))
+    return " ".join(out)
+
+
 CONFIG_TEXT = {"default": "", "posixfail": " [network_write.c built -DPOSIXFAIL_MSG_NOSIGNAL]"}
 BOTH_CONFIGS = ("; every plain scenario is also run on a second build of the driver with network_write.c compiled "
                 "-DPOSIXFAIL_MSG_NOSIGNAL on a host made to look as if it had no MSG_NOSIGNAL (send flag 0, SIGPIPE "
@@ -1309,8 +1454,8 @@ def _run(ctx, sub, cases, checker, rule, also_ctx=(), configs=("default",)):
         ctx.count(sub + ".mode.plain", sum(1 for c in cases if not c.startswith("scx ")))
         ctx.count(sub + ".mode.context", sum(1 for c in cases if c.startswith("scx ")))
     # one model log per scenario, whatever the transport mode / build configuration of the implementation run
-    plain = [to_plain_mode(c) for c in cases]
-    uniq = list(dict.fromkeys(plain))
+    plain = [strip_huge(to_plain_mode(c)) for c in cases]
+    uniq = list(dict.fromkeys(c for c in plain if not no_model(c)))
     import threading
     runs = {}
 
@@ -1340,8 +1485,8 @@ def _run(ctx, sub, cases, checker, rule, also_ctx=(), configs=("default",)):
         if len(configs) > 1:
             ctx.count(sub + ".config." + cfg, len(ccases))
         for c, a in zip(ccases, impl):
-            m = mlog[to_plain_mode(c)]
             core, extra, status = split_impl(a)
+            m = core if no_model(c) else mlog[strip_huge(to_plain_mode(c))]
             toks = core.split()
             viol, known = checker(c, toks, extra)
             viol = list(viol) + extras_ok(extra, status, config=cfg)
@@ -1350,7 +1495,7 @@ def _run(ctx, sub, cases, checker, rule, also_ctx=(), configs=("default",)):
                 nd += 1
                 if nd <= 4:
                     ctx.fail(sub, "property", c, "; ".join(viol[:3]) + tag + " || impl=" + a[:400], property_fails=True)
-            elif core != m:
+            elif strip_huge_log(core) != m:
                 nd += 1
                 if nd <= 4:
                     ctx.fail(sub, "diff", c, "impl%s=%s model=%s" % (tag, core[:500], m[:500]), property_fails=False)
@@ -1379,11 +1524,13 @@ def _conn_checker(c, toks, extra):
 
 
 def check_net_rw(ctx):
-    cases = corpus_cases(("rw_",)) + gen_rw(ctx, ctx.n(1500, 40000))
+    cases = corpus_cases(("rw_",)) + gen_rw(ctx, ctx.n(1500, 40000)) + gen_rw_gigabytes(ctx, ctx.n(150, 3000))
     _run(ctx, "net_rw", cases, _sc_checker,
          "network_read / network_write requests with (buflen, min) from a boundary list, kernel answers in random "
          "pieces with EAGAIN/EWOULDBLOCK/EINTR bursts, EOF and hard errors at any offset, cancel at chosen instants, "
-         "back-to-back requests from inside callbacks, read+write on one descriptor; impl log diffed against the "
+         "back-to-back requests from inside callbacks, read+write on one descriptor; single requests of 2^31-1 .. 2^36 bytes "
+         "(unbacked buffers, a kernel that moves at most 0x7ffff000 bytes per call or everything at once; these are judged "
+         "by the independent evaluator only); impl log diffed against the "
          "extracted model and checked by an independent predicate evaluator; non-trivial = distinct log shape" +
          BOTH_CONFIGS, configs=("default", "posixfail"))
 
@@ -1435,8 +1582,221 @@ def check_netbuf_write(ctx):
          BOTH_MODES + BOTH_CONFIGS, also_ctx=_second_mode(ctx, corpus, gen), configs=("default", "posixfail"))
 
 
+# ------------------------------------------------------------------ two writers alive at the same time
+MW_FDS = (6, 8)
+MW_POS1 = 1000000        # stream position at which the second writer's pattern starts (the streams differ)
+
+
+def gen_multi_writer(ctx, n):
+    """two buffered writers on two descriptors, operations interleaved: in particular reservations that
+    overlap in time (W0.reserve W1.reserve W0.consume W1.consume and the other orders), with data
+    queued or in flight before, sizes below and above the 4096-byte buffer, a transport failure on
+    one of them.  Well-formed by construction (no operation is skipped by the driver): a writer is
+    not written to while it holds a reservation, the event loop is not run while any does."""
+    r = ctx.rng
+    cases = []
+    for i in range(n):
+        sizes = [0, 1, 2, 50, 100, 150, 4000, 4095, 4096, 4097, 8192, r.randrange(0, 9000)] + ([100000] if i % 8 == 0 else [])
+        fds = list(MW_FDS) if r.random() < 0.7 else list(MW_FDS[::-1])     # which descriptor polls first
+        pfx = ["n", "m"]
+        toks = ["nwi:%d" % fds[0], "mwi:%d" % fds[1], "mwo:%d" % MW_POS1]
+        res = [None, None]
+        total = [0, 0]
+        failing = r.choice([None] * 4 + [0, 1])
+
+        def feed(k, final=False):
+            evs = _retry_burst(r)
+            left = (total[k] + 10) if final else r.choice([1, 100, 4095, 4096, 4097, 10000, 200000])
+            while left > 0 and len(evs) < 40:
+                room = r.choice([1, 7, 4095, 4096, 4097, 100000, left]) if final else left
+                evs.append("n%d" % max(1, room))
+                left -= max(1, room)
+                evs += _retry_burst(r)
+            return "k:%d:w:%s" % (fds[k], ",".join(evs))
+
+        def consume(k):
+            kk = res[k]
+            j = r.choice([kk, kk, kk, kk // 2, max(0, kk - 1), 0])
+            toks.append("%swc:%d" % (pfx[k], j))
+            total[k] += j
+            res[k] = None
+
+        shape = r.choice(["overlap", "overlap", "overlap", "random", "random"])
+        ctx.count("multi_writer." + shape)
+        if shape == "overlap":
+            # optional preamble: data queued / in flight on either writer
+            for k in (0, 1):
+                if r.random() < 0.5:
+                    a = r.choice(sizes)
+                    toks.append("%sww:%d" % (pfx[k], a))
+                    total[k] += a
+            if r.random() < 0.4:
+                toks += [feed(0), feed(1), "run"]
+            for rep in range(r.choice([1, 1, 2, 3])):
+                order = r.choice([(0, 1, 0, 1), (0, 1, 1, 0), (1, 0, 0, 1), (1, 0, 1, 0)])
+                for k in order[:2]:
+                    res[k] = r.choice(sizes)
+                    toks.append("%swr:%d" % (pfx[k], res[k]))
+                for k in order[2:]:
+                    consume(k)
+                    if r.random() < 0.3 and res[1 - k] is not None:
+                        pass
+                if r.random() < 0.6:
+                    toks += [feed(0), feed(1), "run"]
+        else:
+            for step in range(r.choice([3, 5, 8, 12])):
+                k = r.choice([0, 1])
+                c = r.random()
+                if res[k] is not None:
+                    consume(k)
+                elif c < 0.45:
+                    res[k] = r.choice(sizes)
+                    toks.append("%swr:%d" % (pfx[k], res[k]))
+                elif c < 0.8:
+                    a = r.choice(sizes)
+                    toks.append("%sww:%d" % (pfx[k], a))
+                    total[k] += a
+                elif res[0] is None and res[1] is None:
+                    toks += [feed(r.choice([0, 1])), "run"]
+        for k in (0, 1):
+            if res[k] is not None:
+                consume(k)
+        for k in r.choice([(0, 1), (1, 0)]):
+            f = feed(k, final=True)
+            if failing == k:
+                evs = f.split(":", 3)[3].split(",")
+                evs.insert(r.randrange(0, len(evs) + 1), "e" + r.choice(HARD_RW))
+                f = "k:%d:w:%s" % (fds[k], ",".join(evs))
+                ctx.count("multi_writer.transport_failure")
+            toks.append(f)
+        toks.append("run")
+        if r.random() < 0.3:
+            k = r.choice([0, 1])
+            toks += ["%sww:%d" % (pfx[k], r.choice(sizes)), "k:%d:w:n200000" % fds[k], "run"]
+        cases.append("sc " + " ".join(toks))
+    return cases
+
+
+def mw_solo(case, k):
+    """the scenario of writer k alone, in the single-writer grammar: its own operations, the kernel
+    script of its own descriptor, every run of the event loop"""
+    toks = case.split()
+    fd = None
+    for t in toks:
+        if t.startswith(("nwi:", "mwi:")[k]):
+            fd = int(t[4:])
+    out = [toks[0]]
+    for t in toks[1:]:
+        if t == "run":
+            out.append(t)
+        elif t.startswith("k:"):
+            if int(t.split(":")[1]) == fd:
+                out.append(t)
+        elif t[:2] == ("nw", "mw")[k] and t[3:4] == ":":
+            out.append("n" + t[1:])
+        elif t[:2] in ("nw", "mw") and t[3:4] == ":":
+            pass
+        else:
+            out.append(t)        # anything else belongs to both (there is nothing else in generated cases)
+    return " ".join(out), fd
+
+
+def mw_project(core, k, fds):
+    """the part of the implementation's log that speaks about writer k (on descriptor fds[k])"""
+    out = []
+    for t in core.split():
+        m = re.match(r"^[SR](\d+):", t) or re.match(r"^wire(\d+)=", t) or re.match(r"^left(\d+)=", t)
+        if m:
+            if int(m.group(1)) == fds[k]:
+                out.append(t)
+            elif int(m.group(1)) != fds[1 - k]:
+                out.append(t)
+            continue
+        if re.match(r"^nw[iwrc]", t) or t == "fail" or t.startswith("nfail="):
+            if k == 0:
+                out.append(t)
+            continue
+        if re.match(r"^mw[iwrc]", t) or t == "mfail" or t.startswith("mnfail="):
+            if k == 1:
+                out.append("n" + t[1:] if t.startswith("mw") else t[1:])
+            continue
+        out.append(t)
+    return " ".join(out)
+
+
+def check_netbuf_multi(ctx):
+    sub = "netbuf_multi"
+    exe, mexe = build(ctx, sub)
+    if not exe or not mexe:
+        return
+    cases = corpus_cases(("nbm_",)) + gen_multi_writer(ctx, ctx.n(500, 15000))
+    cases += [to_ctx_mode(c) for c in cases]
+    rc = _replay_cases(ctx, sub)
+    if rc is not None:
+        if not rc:
+            return
+        cases = list(dict.fromkeys(rc))
+    solos = {}
+    for c in cases:
+        for k in (0, 1):
+            sc_, fd = mw_solo(to_plain_mode(c), k)
+            solos[(c, k)] = (sc_, fd)
+    uniq = list(dict.fromkeys(v[0] for v in solos.values()))
+    import threading
+    runs = {}
+    ths = [threading.Thread(target=lambda: runs.__setitem__("impl", vlib.run_sharded(exe, cases, env=ASAN_ENV))),
+           threading.Thread(target=lambda: runs.__setitem__("model", vlib.run_sharded(mexe, uniq)))]
+    for t in ths:
+        t.start()
+    for t in ths:
+        t.join()
+    impl, st = runs["impl"]
+    mout, _ = runs["model"]
+    if len(mout) != len(uniq) or len(impl) != len(cases):
+        ctx.fail(sub, "crash", "", "output count mismatch impl=%d/%d model=%d/%d" % (len(impl), len(cases), len(mout), len(uniq)))
+        return
+    mlog = dict(zip(uniq, mout))
+    nd = 0
+    keys = set()
+    for c, a in zip(cases, impl):
+        core, extra, status = split_impl(a)
+        viol = extras_ok(extra, status)
+        fds = (solos[(c, 0)][1], solos[(c, 1)][1])
+        diff = None
+        if "skip" in core.split():
+            viol.append("the driver skipped an operation of a well-formed two-writer scenario")
+        for k in (0, 1):
+            solo, fd = solos[(c, k)]
+            proj = mw_project(core, k, fds)
+            v, known = check_sc(solo, proj.split())
+            viol += ["writer %d (fd %d): %s" % (k, fd, x) for x in v]
+            if not v and proj != mlog[solo] and diff is None:
+                diff = "writer %d (fd %d), which the other writer must not influence: its part of the log=%s || model of this writer alone (%s)=%s" % (
+                    k, fd, proj[:400], solo[:300], mlog[solo][:400])
+        keys.add((c.split()[0], re.sub(r"\d+", "#", core)[:400]))
+        if viol:
+            nd += 1
+            if nd <= 4:
+                ctx.fail(sub, "property", c, "; ".join(viol[:3]) + " || impl=" + a[:500], property_fails=True)
+        elif diff:
+            nd += 1
+            if nd <= 4:
+                ctx.fail(sub, "diff", c, diff, property_fails=False)
+    for r_, err in st:
+        if r_ != 0:
+            ctx.fail(sub, "crash", "", "driver exit rc=%d: %s" % (r_, err[-300:]), property_fails=True)
+    ctx.count(sub + ".disagreements", nd)
+    ctx.record(sub, cases, keys,
+               "two buffered writers alive at the same time on two descriptors, operations interleaved - reservations that "
+               "overlap in time in every order (W0.reserve W1.reserve W0.consume W1.consume ...), data queued or in flight, "
+               "sizes around WBUFLEN, a transport failure on one of them; both transports.  The log is projected on each writer "
+               "(its calls, the sends on its descriptor, its wire, its failure callback) and each projection is compared with "
+               "the extracted model's run of that writer alone and judged by the independent evaluator: each peer receives "
+               "exactly its own writer's bytes", samples=[cases[0], cases[-1]])
+
+
 SUBCHECKS = {"C06": [check_net_rw, check_net_connect, check_net_accept],
-             "C07": [check_netbuf_read, check_netbuf_write]}
+             "C07": [check_netbuf_read, check_netbuf_write, check_netbuf_multi]}
 
 
 # ------------------------------------------------------------------ C14: fail the k-th allocation
@@ -1475,6 +1835,50 @@ def _collapse_retry(toks):
             out.append(t)
         i += 1
     return out
+
+
+def _unsatisfiable_waits(ctx, sub, exe, q):
+    """allocations refused by the allocator itself rather than by injection: netbuf_read_wait for
+    lengths of 2^47 .. SIZE_MAX bytes at every state of the reader (read pointer moved, buffer grown,
+    inside callbacks).  Expected: -1 from the call, no callback for it, and the rest of the run
+    exactly the run of the same scenario without these calls (reader unchanged and usable)."""
+    r = q.rng
+    hb = corpus_cases(("nbr_huge",)) + [with_huge_waits(r, c, p=0.9) for c in gen_nbr(q, ctx.n(80, 1500), big_every=10 ** 9)]
+    hb = [c for c in hb if " nrh:" in c]
+    hb += [to_ctx_mode(c) for c in hb]
+    rc = _replay_cases(ctx, sub)
+    if rc is not None:
+        hb = [c for c in hb if c in rc] + [c for c in rc if " nrh:" in c and not c.startswith("af=")]
+        hb = list(dict.fromkeys(hb))
+    if not hb:
+        return
+    out, st = vlib.run_sharded(exe, hb + [strip_huge(c) for c in hb], env=ASAN_ENV)
+    if len(out) != 2 * len(hb):
+        ctx.fail(sub, "crash", "", "output count mismatch (unsatisfiable waits) %d for %d cases" % (len(out), 2 * len(hb)))
+        return
+    nd = 0
+    keys = set()
+    for c, a, b in zip(hb, out[:len(hb)], out[len(hb):]):
+        core, extra_t, status = split_impl(a)
+        bcore, _, bstatus = split_impl(b)
+        viol, _ = check_sc(c, core.split())
+        viol = list(viol) + extras_ok(extra_t, status)
+        if not viol and not bstatus and strip_huge_log(core) != bcore:
+            viol.append("apart from the refused waits the run differs from the run of the same scenario without them "
+                        "(a refused wait must leave the reader as it was): without=" + bcore[:300])
+        keys.add(re.sub(r"\d+", "#", core)[:300])
+        ctx.count("allocfail.unsatisfiable_wait", core.count("=-1"))
+        if viol:
+            nd += 1
+            if nd <= 3:
+                ctx.fail(sub, "property", c, "; ".join(viol[:3]) + " || impl=" + a[:500], property_fails=True)
+    for rc_, err in st:
+        if rc_ != 0:
+            ctx.fail(sub, "crash", "", "driver exit rc=%d: %s" % (rc_, err[-300:]), property_fails=True)
+    ctx.record(sub + ".unsatisfiable", hb, keys,
+               "netbuf_read_wait for lengths the allocator itself refuses (2^47 .. SIZE_MAX, SIZE_MAX - j around the number of "
+               "bytes consumed) at every state of a reader - read pointer moved, buffer grown, inside callbacks, both transports: "
+               "-1, no callback, rest of the run equal to the run without these calls", samples=hb[:1])
 
 
 def check_net_allocfail(ctx):
@@ -1523,6 +1927,7 @@ def check_net_allocfail(ctx):
             cases.append("af=%dp %s" % (k, c))
             ref.append((c, core))
         ctx.count("allocfail.base_cases")
+    _unsatisfiable_waits(ctx, sub, exe, q)
     rc = _replay_cases(ctx, sub)
     if rc is not None:
         keep = [i for i, ac in enumerate(cases) if ac in rc]
